@@ -8,6 +8,7 @@ import CstructModel.Union
 import CstructModel.Parser
 import CstructModel.Stubgen
 import CstructModel.Compiler
+import CstructModel.Compile
 open Cstruct Cstruct.Proto
 
 def pairs? (s : Sexp) : Option (List (String × Int)) :=
@@ -95,6 +96,28 @@ def parseInstr : Sexp → Option Compiler.Instr
     let f : Option String := match fmt with | .str t => some t | _ => none
     some (.block (← sz.nat?) f (← slots.mapM parseSlot))
   | _ => none
+
+def slotSexp (sl : Compiler.Slot) : Sexp :=
+  let src : Sexp := match sl.src with
+    | .buf a b => .list [.atom "buf", .atom (toString a), .atom (toString b)]
+    | .data1 i => .list [.atom "data", .atom (toString i)]
+    | .dataN i j => .list [.atom "data", .atom (toString i), .atom (toString j)]
+  let dec : Sexp := match sl.dec with
+    | .init => .atom "init" | .parse => .atom "parse" | .pointer => .atom "pointer"
+    | .intArray k => .list [.atom "intarray", .atom (toString k)]
+    | .initArray => .atom "initarray" | .parseArray => .atom "parsearray" | .pointerArray => .atom "pointerarray"
+  .list [.str sl.name, src, dec, .atom (toString sl.size)]
+
+def instrSexp : Compiler.Instr → Sexp
+  | .seek n => .list [.atom "seek", .atom (toString n)]
+  | .align n => .list [.atom "align", .atom (toString n)]
+  | .alignCls => .list [.atom "aligncls"]
+  | .bitsReset => .list [.atom "bitsreset"]
+  | .sub n => .list [.atom "sub", .str n]
+  | .bits n k via => .list [.atom "bits", .str n, .atom (toString k),
+      .atom (match via with | .self => "self" | .base => "base" | .token => "token")]
+  | .block sz fmt slots => .list [.atom "block", .atom (toString sz),
+      (match fmt with | some f => .str f | none => .atom "none"), .list (slots.map slotSexp)]
 
 def handle (s : Sexp) : Sexp :=
   match s with
@@ -309,6 +332,17 @@ def handle (s : Sexp) : Sexp :=
           .list (szs.map fun (n, k) => .list [.str n, .atom (toString k)])]
       | .error e => errSexp e
     | _, _, _, _, _ => .list [.atom "bad-args"]
+  -- (compile cfg T): the plan the model of the compiler produces, or (fallback) when the generator raises
+  | .list [.atom "compile", c, t] =>
+    match parseCfg c, parseTy t with
+    | .ok cfg, .ok (.struct al fs) =>
+      match structLayout cfg al fs with
+      | .error e => errSexp e
+      | .ok (_, _, offs) =>
+        match Compiler.compile cfg al fs offs with
+        | .ok plan => .list [.atom "ok", .list (plan.map instrSexp)]
+        | .error () => .list [.atom "fallback"]
+    | _, _ => .list [.atom "bad-args"]
   | _ => .list [.atom "bad-op"]
 
 partial def loop (h out : IO.FS.Stream) : IO Unit := do
